@@ -267,6 +267,25 @@ def rule_R2(text):
         return "for %s in 0..%s.len() { let %s = %s[%s];" % (i, v, x, v, i)
 
     text = re.sub(r"for\s+\((\w+),\s*&(\w+)\)\s+in\s+(\w+)\.iter\(\)\.enumerate\(\)\s*\{", repl2, text)
+
+    def repl3(m):
+        # for i in (0..N).rev() {   ->   let mut __rev_i = N; while __rev_i > 0 { __rev_i -= 1; let i = __rev_i;
+        nonlocal count
+        count += 1
+        i, n = m.group(1), m.group(2)
+        return "let mut __rev_%s = %s; while __rev_%s > 0 { __rev_%s -= 1; let %s = __rev_%s;" % (i, n, i, i, i, i)
+
+    text = re.sub(r"for\s+(\w+)\s+in\s+\(0\.\.([\w.()]+)\)\.rev\(\)\s*\{", repl3, text)
+
+    def repl4(m):
+        # for (i, &x) in v.iter().enumerate().rev() {  ->  reversed index loop + let x = v[i];
+        nonlocal count
+        count += 1
+        i, x, v = m.group(1), m.group(2), m.group(3)
+        return ("let mut __rev_%s = %s.len(); while __rev_%s > 0 { __rev_%s -= 1; let %s = __rev_%s; let %s = %s[%s];"
+                % (i, v, i, i, i, i, x, v, i))
+
+    text = re.sub(r"for\s+\((\w+),\s*&(\w+)\)\s+in\s+(\w+)\.iter\(\)\.enumerate\(\)\.rev\(\)\s*\{", repl4, text)
     return text, count
 
 
@@ -353,7 +372,7 @@ def resolve_anchor(anchor, text, mask, body_open, body_close):
             return ob
         if where == "body-start":
             # skip the `let x = v[__k_x];` statement introduced by rule R2
-            m = re.match(r"\s*let \w+ = \w+\[\w+\];", text[ob + 1:cb])
+            m = re.match(r"\s*__rev_\w+ -= 1; let \w+ = __rev_\w+;(?: let \w+ = \w+\[\w+\];)?|\s*let \w+ = \w+\[\w+\];", text[ob + 1:cb])
             return ob + 1 + (m.end() if m else 0)
         if where == "body-end":
             return cb
@@ -541,6 +560,7 @@ def process_block(blk, report, twin=None, defined=None):
         if cnt:
             applied.append({"rule": "local", "from": frm, "to": to, "count": cnt})
 
+    text_after_rewrites = text
     ret = blk.opts.get("ret")
     if blk.kind == "fn" and ret:
         m2 = mask_source(text)
@@ -594,7 +614,7 @@ def process_block(blk, report, twin=None, defined=None):
     auto = []
     closure = ""
     if blk.kind == "fn" and defined is not None:
-        closure = const_closure(src, mask, src[start:end], defined, auto)
+        closure = const_closure(src, mask, text_after_rewrites, defined, auto)
     head = closure + "".join(a + "\n" for a in keep_attrs) + "".join(a + "\n" for a in getattr(blk, "fnattrs", []))
     report.append({
         "item": blk.name, "kind": blk.kind, "file": blk.path, "impl": blk.opts.get("impl"),
